@@ -1,14 +1,107 @@
-(** * C01 - compiled recipe matches the documented meaning of its source. *)
+(** * C01 - compiled recipe matches the documented meaning of its source.
+
+    Statements are about the faithful model [compile_ast] of compiler.py
+    (Model/Compiler.v) for EVERY program and every unit table / tolerance /
+    lower-casing function.  [resolve] (Spec/CompileSpec.v) is the short
+    declarative reading of the language reference for name resolution.
+    Proofs: Proofs/CompilerPass1.v, CompilerExpand.v, CompilerMain.v. *)
 From Coq Require Import List ZArith NArith Bool String.
-From RG Require Import Base.Str Base.Num Model.Recipe Model.Compiler Model.CompilerInst.
+From RG Require Import Base.Str Base.Num Model.Recipe Model.Compiler Model.CompilerInst Spec.CompileSpec
+  Proofs.CompilerExpand Proofs.CompilerPass1 Proofs.CompilerMain.
 Import ListNotations.
 Open Scope string_scope.
 
-(** Smoke / non-vacuity: "spam = 1 x" then "fry(spam)" folds the definition into its use. *)
+(** Name resolution: each statement becomes a tree of its steps and
+    ingredients in written order; a name mentioned after its definition
+    (normalised: case and surrounding whitespace ignored) is a reference to
+    that output carrying the written amount, an ingredient otherwise; the
+    MyPy assertion is unreachable. *)
+Theorem C01_pass1_refines_resolve :
+  forall lower p,
+  match pass1 lower p with
+  | P1Ok bs _ => resolve lower p = Resolved bs
+  | P1Err k b o => resolve lower p = Rejected k b o
+  | P1Crash _ => False
+  end.
+Proof. exact pass1_refines_resolve. Qed.
+
+(** Exactly the two documented compile errors, at the documented token, and
+    nothing else is rejected. *)
+Theorem C01_rejects_exactly_documented :
+  forall convert tol lower p k b o,
+  compile_ast convert tol lower p = CErr k b o <-> resolve lower p = Rejected k b o.
+Proof. exact compile_rejects_iff. Qed.
+
+Theorem C01_accepts_iff_resolvable :
+  forall convert tol lower p,
+  (exists bs, resolve lower p = Resolved bs) <->
+  (exists bs, compile_ast convert tol lower p = COk bs) \/ (exists c, compile_ast convert tol lower p = CCrash c).
+Proof. exact compile_accepts_iff. Qed.
+
+Theorem C01_no_assert_crash :
+  forall convert tol lower p, compile_ast convert tol lower p <> CCrash AssertOutputs.
+Proof. exact compile_no_assert_crash. Qed.
+
+(** The fold rule evaluated at a definition's turn: exactly one output, one
+    reference, in the defining block, consuming the whole amount (remainder,
+    a proportion numerically 1, or a quantity math.isclose to the quantity
+    inferred through single-input steps and single-output sub recipes). *)
+Theorem C01_fold_rule :
+  forall convert tol lower e,
+  can_be_inlined convert tol lower e = Some true <->
+  exists body nm sh rs ri amt blk,
+    e_sub e = SubRecipe body [nm] sh /\ e_refs e = [(Reference rs ri amt, blk)] /\
+    blk = e_def_block e /\ whole_amount convert tol lower amt (infer_quantity (e_sub e)) = Some true.
+Proof. exact fold_rule. Qed.
+
+(** What folding may do to the resolved trees: after following references
+    nothing but the deletion of roots (see C05). *)
+Theorem C01_compiled_is_resolved_up_to_folding :
+  forall convert tol lower p bs,
+  compile_ast convert tol lower p = COk bs ->
+  exists bs0, resolve lower p = Resolved bs0 /\ blocks_sub bs bs0.
+Proof. exact compile_conserves_resolve. Qed.
+
+(** Non-vacuity. "spam = 1 x" then "fry(spam)" folds the definition into its
+    use; ":=" keeps the title; a second use prevents folding; the two errors. *)
+Definition st_def (named : bool) := mkStmt [([PStr (s "spam")], 0%N)] named (ARef [PStr (s "x")] None 7%N).
+Definition st_use := mkStmt [] false (AStep [PStr (s "fry")] [ARef [PStr (s "SPAM ")] None 4%N]).
+
 Example C01_fold_example :
-  compile_ast_inst
-    [[mkStmt [([PStr (s "spam")], 0%N)] false (ARef [PStr (s "x")] None 7%N);
-      mkStmt [] false (AStep [PStr (s "fry")] [ARef [PStr (s "spam")] None 4%N])]]
-  = COk [[Step [PStr (s "fry")] [Ingredient [PStr (s "x")] None]]].
+  compile_ast_inst [[st_def false; st_use]] = COk [[Step [PStr (s "fry")] [Ingredient [PStr (s "x")] None]]].
 Proof. vm_compute. reflexivity. Qed.
-Print Assumptions C01_fold_example.
+
+Example C01_named_fold_keeps_title :
+  compile_ast_inst [[st_def true; st_use]]
+  = COk [[Step [PStr (s "fry")] [SubRecipe (Ingredient [PStr (s "x")] None) [[PStr (s "spam")]] true]]].
+Proof. vm_compute. reflexivity. Qed.
+
+Example C01_two_uses_not_folded :
+  exists a b c, compile_ast_inst [[st_def false; st_use; st_use]] = COk [[a; b; c]].
+Proof. vm_compute. eexists _, _, _. reflexivity. Qed.
+
+Example C01_other_block_not_folded :
+  exists a b, compile_ast_inst [[st_def false]; [st_use]] = COk [[a]; [b]].
+Proof. vm_compute. eexists _, _. reflexivity. Qed.
+
+Example C01_errors_example :
+  compile_ast_inst [[st_def false; st_def false]] = CErr NameRedefined 0 0%N /\
+  compile_ast_inst [[mkStmt [] false (ARef [PStr (s "y")] (Some (AProp (PropRem (s "rest") []))) 3%N)]]
+  = CErr ProportionGiven 0 3%N.
+Proof. vm_compute. split; reflexivity. Qed.
+
+(** NOT proved here (kept visible):
+    C01_compile_refines_spec : compile_ast p = spec_compile p  - the full refinement to the
+    pointer-based specification resolve ; fold ; embed of DESIGN.md Appendix C (which definitions end up
+    folded, and that the grafted tree is exactly the defining tree).  Proved parts: resolution (above), the
+    fold rule at a definition's turn (above), that folding changes nothing but deletes roots once references
+    are followed (above / C05), structural crash-freedom and strict validity (Props/C01inv.v when present).
+    The full statement is checked by the oracle rgv/oracles/spec_compile.py against the implementation on
+    every generated program. *)
+
+Print Assumptions C01_pass1_refines_resolve.
+Print Assumptions C01_rejects_exactly_documented.
+Print Assumptions C01_accepts_iff_resolvable.
+Print Assumptions C01_no_assert_crash.
+Print Assumptions C01_fold_rule.
+Print Assumptions C01_compiled_is_resolved_up_to_folding.
